@@ -247,7 +247,7 @@ RULES.append(t10)
 
 @rule("MC", doc="must-call census: no function of this property's files has gained an early exit in front of work it always did (every crate-local call that lay on all paths to a normal return in the reviewed tree still does)")
 def mc(ctx):
-    C.must_call_census(ctx, ctx.lib(), ['src/egraph/find.rs', 'src/egraph/union.rs', 'src/rewrite/mod.rs', 'src/egraph/mod.rs'])
+    C.must_call_census(ctx, ctx.lib(), ['src/egraph/add.rs', 'src/egraph/find.rs', 'src/egraph/union.rs', 'src/rewrite/mod.rs', 'src/egraph/mod.rs'])
 
 
 RULES.append(mc)
@@ -307,3 +307,12 @@ def t13(ctx):
 
 
 RULES.append(t13)
+
+
+@rule("T14", doc="an old handle stays usable between operations: every public &mut entry point returns with empty work-lists (C02.P1) — with requests still queued, parents of a class that was just moved are missing from the indexes extraction and lookup read")
+def t14(ctx):
+    from . import c02
+    c02.p1(ctx)
+
+
+RULES.append(t14)
